@@ -26,56 +26,132 @@ def _kinds():
     return [k for k in T if k is not T.EOF], vals
 
 
-def _mk_tokens(first):
-    def P_tokens(k1: int, k2: int, k3: int, n: int, meta_first: bool, strict: bool) -> int:
+def _mk_tokens(first, nmax):
+    def P_tokens(k1: int, k2: int, n: int, strict: bool, s: str, num: int, ind: int) -> int:
         """
-        pre: 0 <= k1 <= 29 and 0 <= k2 <= 29 and k3 == 0 and 1 <= n <= 3 and not meta_first
+        pre: 0 <= k1 <= 29 and 0 <= k2 <= 29 and 1 <= n <= NMAX and len(s) <= 2 and 0 <= ind <= 6
         post: _ != 0
         """
-        # every token-kind sequence up to length 4: the parser returns a Document or raises ParserError, nothing else
+        # every token-kind sequence up to length NMAX (kinds chosen by the solver) whose string-valued tokens
+        # (IDENTIFIER, STRING, COMMENT, ENVELOPE_START, VARIABLE) carry the SYMBOLIC text s, NUMBER the symbolic int num,
+        # INDENT the symbolic width ind: the real parser returns a Document or raises ParserError, nothing else
         from crosshair.core import realize
         from crosshair.tracers import NoTracing
         from octave_mcp.core.ast_nodes import Document
         from octave_mcp.core.lexer import Token, TokenType as T
         from octave_mcp.core.parser import Parser, ParserError
 
-        k1, k2, k3, n, meta_first, strict = realize(k1), realize(k2), realize(k3), realize(n), realize(meta_first), realize(strict)
+        k1, k2, n, strict = realize(k1), realize(k2), realize(n), realize(strict)
         with NoTracing():
             kinds, vals = _kinds()
-            seq = [kinds[first], kinds[k1], kinds[k2], kinds[k3]][:n]
-            toks = []
-            if meta_first:
-                toks += [Token(T.IDENTIFIER, "META", 1, 1), Token(T.BLOCK, ":", 1, 5), Token(T.NEWLINE, "\n", 1, 6), Token(T.INDENT, 2, 2, 1)]
-            for i, k in enumerate(seq):
-                toks.append(Token(k, vals[k], 2, 3 + 2 * i, None, "1" if k is T.NUMBER else None))
-            toks.append(Token(T.EOF, None, 3, 1))
-            try:
-                d = Parser(toks, strict_structure=strict).parse_document()
-            except ParserError:
-                return HELD
-            return HELD if isinstance(d, Document) else VIOL
+            seq = [kinds[first], kinds[k1], kinds[k2]][:n]
+        toks = []
+        for i, k in enumerate(seq):
+            if k in (T.IDENTIFIER, T.STRING, T.COMMENT, T.ENVELOPE_START):
+                v = s
+            elif k is T.VARIABLE:
+                v = "$" + s
+            elif k is T.NUMBER:
+                v = num
+            elif k is T.INDENT:
+                v = ind
+            else:
+                v = vals[k]
+            toks.append(Token(k, v, 2, 3 + 2 * i, None, "1" if k is T.NUMBER else None))
+        toks.append(Token(T.EOF, None, 3, 1))
+        try:
+            d = Parser(toks, strict_structure=strict).parse_document()
+        except ParserError:
+            return HELD
+        return HELD if isinstance(d, Document) else VIOL
 
+    P_tokens.__doc__ = P_tokens.__doc__.replace("NMAX", str(nmax))
     return P_tokens
 
 
-def P_nesting(depth_i: int, strict: bool) -> int:
+def P_nesting(depth_i: int, entry: int, pos: int) -> int:
     """
-    pre: 0 <= depth_i <= 3
+    pre: 0 <= depth_i <= 4 and 0 <= entry <= 2 and 0 <= pos <= 3
     post: _ != 0
     """
+    # bracket nesting around the cap, at every position a value can sit in (top-level, block child, META field,
+    # section child), through every reader entry point: refused with ParserError at/over the cap, never RecursionError
     from crosshair.core import realize
     from crosshair.tracers import NoTracing
-    from octave_mcp.core.parser import MAX_NESTING_DEPTH, ParserError, parse, parse_with_warnings
+    from octave_mcp.core.parser import MAX_NESTING_DEPTH, ParserError, parse, parse_meta_only, parse_with_warnings
 
-    depth_i, strict = realize(depth_i), realize(strict)
+    depth_i, entry, pos = realize(depth_i), realize(entry), realize(pos)
     with NoTracing():
-        depth = [MAX_NESTING_DEPTH - 1, MAX_NESTING_DEPTH, MAX_NESTING_DEPTH + 1, MAX_NESTING_DEPTH * 3][depth_i]
-        text = "K::" + "[" * depth + "x" + "]" * depth + "\n"
+        depth = [MAX_NESTING_DEPTH - 1, MAX_NESTING_DEPTH, MAX_NESTING_DEPTH + 1, MAX_NESTING_DEPTH * 4, MAX_NESTING_DEPTH * 60][depth_i]
+        v = "[" * depth + "x" + "]" * depth
+        text = ["K::" + v + "\n", "B:\n  K::" + v + "\n", "===D===\nMETA:\n  TYPE::T\n  K::" + v + "\n===END===\n", "§1::S\n  K::" + v + "\n"][pos]
+        if entry == 2 and pos != 2:
+            return SKIP  # parse_meta_only only reads the META block
         try:
-            (parse if strict else parse_with_warnings)(text)
+            (parse, parse_with_warnings, parse_meta_only)[entry](text)
             return HELD if depth <= MAX_NESTING_DEPTH else VIOL
-        except ParserError as e:
+        except ParserError:
             return HELD if depth >= MAX_NESTING_DEPTH else VIOL
+
+
+def J_converted_values_serialise(k0: int, k1: int, k2: int, fmt: int, s: str, num: int) -> int:
+    """
+    pre: 0 <= k0 <= 8 and 0 <= k1 <= 8 and 0 <= k2 <= 6 and 0 <= fmt <= 1 and len(s) <= 2
+    post: _ != 0
+    """
+    # every value tree (kinds chosen by the solver: scalar kinds, list, inline map, holographic pattern, literal zone;
+    # a container holds [item, leaf] where item is again of any kind and holds one leaf of any scalar kind) converts to something json.dumps / the Markdown
+    # formatter accept: no AST object leaks into a projection.  Leaf texts / numbers symbolic.
+    import json
+
+    from crosshair.core import deep_realize, realize
+    from crosshair.tracers import NoTracing
+    from octave_mcp.core.ast_nodes import Assignment, Block, Document, HolographicValue, InlineMap, ListValue, LiteralZoneValue, Section
+    from octave_mcp.mcp import eject as ej
+
+    k0, k1, k2, fmt = realize(k0), realize(k1), realize(k2), realize(fmt)
+
+    def leaf(k):
+        if k == 0:
+            return s
+        if k == 1:
+            return num
+        if k == 2:
+            return None
+        if k == 3:
+            return True
+        if k == 4:
+            return 2.5
+        if k == 5:
+            with NoTracing():
+                from octave_mcp.core.parser import parse
+
+                return parse('K::["e"∧REQ→§T]\n').sections[0].value
+        return LiteralZoneValue(content=s, info_tag=None, fence_marker="```")
+
+    def mk(k, items):
+        if k <= 6:
+            return leaf(k)
+        if k == 7:
+            return ListValue(items=list(items))
+        return InlineMap(pairs={"P%d" % i: it for i, it in enumerate(items)})
+
+    top = mk(k0, [mk(k1, [leaf(k2)]), leaf(k2)])
+    with NoTracing():
+        hv_ok = isinstance(leaf(5), HolographicValue)
+    if not hv_ok:
+        return SKIP
+    doc = Document(name="D", meta={"TYPE": "T", "M": top}, sections=[Assignment(key="A", value=top), Block(key="B", children=[Assignment(key="C", value=top)]), Section(section_id="1", key="S", children=[Assignment(key="E", value=top)])])
+    if fmt == 0:
+        d = ej._ast_to_dict(doc)
+        with NoTracing():
+            try:
+                json.dumps(deep_realize(d), ensure_ascii=False)
+            except (TypeError, ValueError):
+                return VIOL
+        return HELD
+    md = ej._ast_to_markdown(doc)
+    return HELD if isinstance(md, str) and "Value(" not in md and "InlineMap(" not in md else VIOL
 
 
 CONTENTS = None
@@ -101,13 +177,14 @@ def _contents():
         "K::1\n" * 50,
         "\x00́\U0001F600",
         "---\nfm: 1\n",
+        'K::[["x"∧REQ→§SELF],fallback]\nL::[k::["y"∧OPT],[["z"∧REQ]]]\n',
         "OCTAVE::5\n===D===\nMETA:\n  TYPE::SESSION_LOG\n  CONTRACT::[FIELD[A]::REQ,FIELD[\"x y\"]::NOPE]\n===END===\n",
     ]
 
 
 def T_tools(ci: int, tool: int, fmt: int, mode: int, f1: bool, f2: bool, f3: bool, schema_i: int) -> int:
     """
-    pre: 0 <= ci <= 15 and tool == TOOLFIX and 0 <= fmt <= 4 and 0 <= mode <= 3 and mode != 1 and mode != 3 and 0 <= schema_i <= 2 and schema_i != 1 and f1 == f2 and f2 == f3
+    pre: 0 <= ci <= 16 and tool == TOOLFIX and 0 <= fmt <= 4 and 0 <= mode <= 3 and mode != 1 and mode != 3 and 0 <= schema_i <= 2 and schema_i != 1 and f1 == f2 and f2 == f3
     post: _ != 0
     """
     # every tool call with well-typed arguments returns a JSON-serialisable envelope carrying status or validation_status
@@ -169,18 +246,111 @@ def _setup():
     stubs.stub_nfc()
 
 
+def TF_validate_faults(profile_i: int, fix: bool, diff_only: bool, compact: bool, grammar_hint: bool, debug: bool, parse_outcome: int, builtin: bool, load_outcome: int, n1: int, n2: int, emit_raises: bool, compile_raises: bool, zones: bool, input_mode: int) -> int:
+    """
+    pre: 0 <= profile_i <= 6 and 0 <= parse_outcome <= 3 and 0 <= load_outcome <= 3 and 0 <= n1 <= 2 and 0 <= n2 <= 2 and 0 <= input_mode <= 2
+    post: _ != 0
+    """
+    # whatever its collaborators do (incl. exception types the tool does not expect: RuntimeError from the reader,
+    # ValueError from the emitter, KeyError from the compiler, OSError from the loader) octave_validate returns an envelope
+    import json
+
+    from harness.C10 import _validate_core
+
+    def check(w, r, prof, kwargs):
+        if not isinstance(r, dict) or not ("status" in r or "validation_status" in r):
+            return VIOL
+        try:
+            json.dumps(r)
+        except (TypeError, ValueError):
+            return VIOL
+        return HELD
+
+    return _validate_core(profile_i, fix, diff_only, compact, grammar_hint, debug, parse_outcome, builtin, load_outcome, n1, n2, emit_raises, compile_raises, zones, input_mode, check)
+
+
+def TF_write_faults(schema_i: int, lenient: bool, grammar_hint: bool, debug: bool, tok_raises: bool, parse_outcome: int, builtin: bool, load_outcome: int, n1: int, n2: int, emit_raises: bool, compile_raises: bool, hermetic_raises: bool, mode: int, corrections_only: bool) -> int:
+    """
+    pre: 0 <= schema_i <= 4 and 0 <= parse_outcome <= 3 and 0 <= load_outcome <= 3 and 0 <= n1 <= 2 and 0 <= n2 <= 2 and 0 <= mode <= 3
+    post: _ != 0
+    """
+    import json
+
+    from harness.C10 import SCHEMAS, _install_write_stubs
+    from harness.toolworld import World, drive
+
+    w = World()
+    mod = _install_write_stubs(w, tok_raises=tok_raises, parse_outcome=parse_outcome, builtin=builtin, load_outcome=load_outcome, n1=n1, n2=n2, emit_raises=emit_raises, compile_raises=compile_raises, file_exists=False, hermetic_raises=hermetic_raises)
+    kwargs = {"target_path": "/t/x.oct.md", "lenient": lenient, "grammar_hint": grammar_hint, "debug_grammar": debug, "corrections_only": True}
+    sch = SCHEMAS[schema_i]
+    if sch is not None:
+        kwargs["schema"] = sch
+    if mode in (0, 2):
+        kwargs["content"] = "K::v"
+    if mode in (2, 3):
+        kwargs["changes"] = {"K": 1}
+    r = drive(mod.WriteTool().execute(**kwargs))
+    if not isinstance(r, dict) or not ("status" in r or "validation_status" in r):
+        return VIOL
+    try:
+        json.dumps(r)
+    except (TypeError, ValueError):
+        return VIOL
+    return HELD
+
+
+_CLASSES = [("ws", " \t"), ("nl", "\n\r"), ("digit", "0123456789"), ("quote", "\"'"), ("tick", "`"), ("dash-plus", "-+"), ("colon", ":"), ("angle-brace", "<>{}"), ("bracket", "[]()"), ("slash-hash", "/#"),
+            ("op", "~|&@$%*=!?^;,.\\"), ("underscore", "_")]
+
+
+def _mk_lexer_len2(chars, rest):
+    def X2(v: str) -> int:
+        """
+        pre: len(v) == 2 and (COND)
+        post: _ != 0
+        """
+        from octave_mcp.core import lexer as lx
+
+        try:
+            toks, reps = lx.tokenize(v)
+        except lx.LexerError:
+            return HELD
+        return HELD if toks and toks[-1].type is lx.TokenType.EOF else VIOL
+
+    if rest == "letters":
+        cond = "('a' <= v[0] <= 'z') or ('A' <= v[0] <= 'Z')"
+    elif rest == "other":
+        allc = "".join(c for _, c in _CLASSES)
+        cond = "not (v[0] in %r) and not (('a' <= v[0] <= 'z') or ('A' <= v[0] <= 'Z'))" % allc
+    else:
+        cond = "v[0] in %r" % chars
+    X2.__doc__ = X2.__doc__.replace("COND", cond.replace(chr(92), chr(92) * 2))
+    return X2
+
+
 def obligations(tier):
+    th = tier == "thorough"
     obs = []
     kinds = 30
+    nmax = 3 if th else 2
     for first in range(kinds):
-        obs.append(xh_ob(PROP, f"P.token-sequences[first-kind={first}]", _mk_tokens(first), timeout=1500, bound="all token-kind sequences of length 1-3 over the 30 non-EOF token kinds starting with this kind, strict and lenient structure (kinds chosen by the solver, one concrete run per choice)", functions=["parser.Parser.parse_document and everything below it"]))
-    obs.append(xh_ob(PROP, "P.nesting-cap", P_nesting, timeout=600, bound="bracket depth cap-1, cap, cap+1, 3*cap; strict and lenient", functions=["parser.Parser._check_deep_nesting", "parse_list"]))
+        obs.append(xh_ob(PROP, f"P.token-sequences[first-kind={first}]", _mk_tokens(first, nmax), timeout=2400 if th else 500, bound=f"all token-kind sequences of length 1-{nmax} over the 30 non-EOF token kinds starting with this kind (kinds chosen by the solver), strict and lenient structure; the text of IDENTIFIER/STRING/COMMENT/ENVELOPE_START/VARIABLE tokens is one symbolic string |s| <= 2 (any character), NUMBER any int, INDENT width 0..6", functions=["parser.Parser.parse_document and everything below it"]))
+    obs.append(xh_ob(PROP, "P.nesting-cap", P_nesting, timeout=600, bound="bracket depth cap-1, cap, cap+1, 4*cap, 60*cap x value position (top level, block child, META field, section child) x entry point (parse, parse_with_warnings, parse_meta_only)", functions=["parser.Parser._check_deep_nesting", "parse_list", "parse", "parse_with_warnings", "parse_meta_only"]))
+    obs.append(xh_ob(PROP, "J.projected-values-are-serialisable", J_converted_values_serialise, timeout=1500, bound="value trees of depth <= 3: 9 kinds (str, int, null, bool, float, holographic, literal zone, list, inline map) at the top, a container holds an item of any of the 9 kinds (itself holding one leaf of the 7 scalar kinds) and that leaf; leaf text |s| <= 2 any character, any int; placed in META, top level, block and section; JSON dict route and Markdown route", functions=["mcp.eject._ast_to_dict", "_convert_block", "_convert_value", "_ast_to_markdown", "_block_to_markdown", "_format_markdown_value"]))
     import types
 
     for ti, tname in enumerate(["eject", "validate", "write", "compile_grammar"]):
         f = types.FunctionType(T_tools.__code__, T_tools.__globals__, "T_tools", None, T_tools.__closure__)
         f.__doc__ = T_tools.__doc__.replace("TOOLFIX", str(ti))
         f.__annotations__ = dict(T_tools.__annotations__)
-        obs.append(xh_ob(PROP, f"T.tools-return-json-envelopes[{tname}]", f, timeout=3000, bound="16 contents (both content models with every value kind, holographic + literal zone, empty, tab, unclosed list, stray bracket, bad envelope, inline fence, unterminated string, single-colon assignment, bad section, 50 lines, NUL/combining/astral characters, unterminated frontmatter, CONTRACT with bad entries) x 5 formats x 2 modes/profiles x flags on/off x 2 schema arguments, real collaborators", functions=["mcp.eject.EjectTool.execute", "mcp.validate.ValidateTool.execute", "mcp.write.WriteTool.execute", "mcp.compile_grammar.CompileGrammarTool.execute"]))
+        obs.append(xh_ob(PROP, f"T.tools-return-json-envelopes[{tname}]", f, timeout=3000, bound="17 contents (holographic patterns inside lists / inline maps, both content models with every value kind, holographic + literal zone, empty, tab, unclosed list, stray bracket, bad envelope, inline fence, unterminated string, single-colon assignment, bad section, 50 lines, NUL/combining/astral characters, unterminated frontmatter, CONTRACT with bad entries) x 5 formats x 2 modes/profiles x flags on/off x 2 schema arguments, real collaborators (solver-indexed pool: every combination is one concrete run of the real tool)", functions=["mcp.eject.EjectTool.execute", "mcp.validate.ValidateTool.execute", "mcp.write.WriteTool.execute", "mcp.compile_grammar.CompileGrammarTool.execute"]))
+    tstubs = ["reader, loader, Validator, repair, emitter, GBNFCompiler replaced by stubs whose outcomes (return / raise, incl. unexpected exception types) are symbolic"]
+    obs.append(xh_ob(PROP, "TF.validate-tool-never-raises-under-collaborator-faults", TF_validate_faults, timeout=1500, bound="7 profile spellings x 5 flags x 3 input modes x reader outcome (ok/LexerError/ParserError/RuntimeError) x schema outcomes (none/fields/no fields/OSError) x 0..2 errors x emitter ValueError x compiler KeyError x zones", functions=["mcp.validate.ValidateTool.execute"], stubs=tstubs))
+    obs.append(xh_ob(PROP, "TF.write-tool-never-raises-under-collaborator-faults", TF_write_faults, timeout=2400, bound="5 schema arguments x flags x tokenizer/reader/loader/emitter/compiler/hermetic failures x 4 argument modes (content / none / content+changes / changes only); corrections_only", functions=["mcp.write.WriteTool.execute"], stubs=tstubs))
     obs.append(xh_ob(PROP, "X.lexer-total-on-1-char-strings", X_lexer_total, timeout=900, setup=_setup, stubs=["NFC fragment stub"], bound="all strings of length <= 1 (any character)", functions=["lexer.tokenize", "_normalize_with_fence_detection", "_match_unicode_identifier"]))
+    if th:
+        for cname, chars in _CLASSES + [("letters", None), ("other", None)]:
+            rest = cname if chars is None else None
+            obs.append(xh_ob(PROP, f"X.lexer-total-on-2-char-strings[first={cname}]", _mk_lexer_len2(chars, rest), timeout=3000, setup=_setup, stubs=["NFC fragment stub"], tiers=("thorough",), optional=True,
+                             bound="all strings of length 2 whose first character is in this class (the 14 classes partition all characters); deepening obligation: if the path tree is not exhausted inside the budget the bound is NOT claimed (reported, exit code unaffected)", functions=["lexer.tokenize"]))
     return select(obs, tier)
